@@ -88,7 +88,7 @@ def gen_history(rng, S, nops):
             else:
                 bases = [i for i, b in enumerate(handle_base) if b]
                 h = gen.pick(rng, bases)
-                ops.append({"op": "accessor", "ctx": h, "flavour": gen.pick(rng, ["t", "tu", "t_display", "tu_string"])})
+                ops.append({"op": "accessor", "ctx": h, "flavour": gen.pick(rng, ["t", "tu", "t_display", "tu_string", "t_format", "tu_format"])})
                 accessors.append([h, "live"])
         expected.append(([regs[r_] for r_ in handle_reg], [acc_want(a, regs, handle_reg) for a in accessors]))
     return ops, expected
@@ -156,9 +156,13 @@ def run(tier, seed, replay=None):
                 res.ev()
                 if acc["flavour"].startswith("memo"):
                     res.count("subscriber-read")
-                if acc["text"] != "hello@" + want:
+                want_text = "hello@" + want
+                if acc["flavour"] in ("t_format", "tu_format"):
+                    want_text = "fmt:" + o["fmt_table"][want]
+                    res.count("formatting-view-read")
+                if acc["text"] != want_text:
                     res.violation("C16/accessor-shows-other-locale/" + acc["flavour"], "history %d step %d (%s): accessor %d (%s on handle %d) renders %r, model says %r" % (
-                        i, step, ops[step], a, acc["flavour"], acc["ctx"], acc["text"], "hello@" + want), {"set": si, "ops": ops[:step + 1], "step": step})
+                        i, step, ops[step], a, acc["flavour"], acc["ctx"], acc["text"], want_text), {"set": si, "ops": ops[:step + 1], "step": step})
                     bad = True
             if len(st["reads"]) != len(want_handles) or len(st["accessors"]) != len(want_acc):
                 res.ev()
